@@ -144,6 +144,20 @@ struct RBounded : RImpl {
 // Creates an fd from which exactly |n| bytes of |data| can be read and then EOF.
 int MakeReadFd(const uint8_t* data, size_t n);
 
+// A pipe whose producer delivers the data in bursts: the next burst is written only after the reader has
+// drained the previous one, so block reads see short reads in the middle of the data (as on sockets / ttys).
+class BurstFeeder {
+ public:
+  BurstFeeder(const uint8_t* data, size_t n, unsigned seed);
+  ~BurstFeeder();
+  int read_fd() const { return rfd_; }   // ownership passes to the reader
+
+ private:
+  struct Impl;
+  Impl* impl_;
+  int rfd_;
+};
+
 struct ReaderSpec {
   std::string kind;          // buffer | pedantic | sstream | fstream | fd
   bool bounded = false;      // wrapped in BoundedReader<kind>
@@ -301,6 +315,7 @@ class DynReader {
   bool dead_ = false;
   Call cur_{};
   std::string tmpfile_;
+  std::unique_ptr<BurstFeeder> feeder_;
 };
 
 // ---------------------------------------------------------------------------
